@@ -40,6 +40,7 @@ def run(ctx):
     _railrules.context_globals(ctx, "C02.d.context-globals", ("output",))
     ctx.floor("C02.c.reject-stop", "nemoguardrails/library", "rejection markers in output rails", nm, 30)
     d_v2(ctx)
+    d_generated_action_gated(ctx)
 
 
 def _create(s, name):
@@ -493,3 +494,29 @@ def find_fn(t, name):
         if f.name == name:
             return f
     return None
+
+
+GEN2 = "nemoguardrails/actions/v2_x/generation.py"
+
+
+def d_generated_action_gated(ctx):
+    """Colang 2.x: the output rails are hooked into `_bot_say`, i.e. they see a bot message only if it is uttered through the `bot ...` flows.  The LLM continuation actions
+    take the `bot action:` part of the completion and make it the BODY of a generated flow.  Unless that text is restricted to the `bot ...` flows, a completion
+    `bot action: UtteranceBotAction(script="...")` starts the utterance action directly and the message reaches the user without any output rail."""
+    t = ctx.tree.ast(GEN2)
+    n = 0
+    for fn in functions(t):
+        defs = [a for a in walk_no_nested(fn) if isinstance(a, ast.Assign) and isinstance(a.targets[0], ast.Name) and isinstance(a.value, ast.Call)
+                and src(a.value.func) == "get_first_bot_action"]
+        for d in defs:
+            n += 1
+            var = d.targets[0].id
+            # a validation: an `if` on the variable that looks at its content (startswith / regex / "Action" in ...) and rejects or rewrites
+            checks = [i for i in walk_no_nested(fn) if isinstance(i, ast.If) and i.lineno > d.lineno and var in [x.id for x in ast.walk(i.test) if isinstance(x, ast.Name)]
+                      and re.search(r"startswith\(|re\.(match|search|fullmatch)\(|Action|\bin\b", src(i.test)) and not re.fullmatch(r"\s*%s\s+is\s+None\s*" % var, src(i.test))]
+            ok = bool(checks)
+            ctx.check("C02.d.generated-action-gated", GEN2, qualname(fn), first_line(d, 60), ok,
+                      "the generated bot action is validated before it becomes a flow body" if ok else
+                      "`%s` (LLM text) becomes the body of a generated flow / is handed to CreateFlowAction without being restricted to the `bot ...` flows: the completion "
+                      "`bot action: UtteranceBotAction(script=\"...\")` starts the utterance directly, bypassing `_bot_say` and with it every output rail" % var, line=d.lineno)
+    ctx.floor("C02.d.generated-action-gated", GEN2, "LLM-generated bot actions that become flow bodies", n, 2)
